@@ -27,9 +27,12 @@
     addressed station and nobody else's application"
         → `tree_remote_broadcast_once`, `tree_unicast_once` (warm caches consistent with the tree)
   * "so that a reply sent to it arrives at the originator"    → `reply_routable`
-  * "paths discovered on demand" (cold caches): modelled (`recv`, `originate`, the service
-    element handlers) and tied to the code by the lockstep and end-to-end streams; its global
-    correctness is NOT a theorem here (see notes/C06.md) — partial.
+  * "multi-hop paths discovered on demand" (cold caches): on a LINE of networks of any length,
+    one discovery at a time → `discovery_line`, `cold_line_unicast_once`,
+    `cold_line_remote_broadcast_once` (stateful simulator `runWorld`); on general trees and for
+    concurrent discoveries: modelled (`recv`, `originate`, the service element handlers), tied
+    to the code by the lockstep / e2e-node / e2e-world streams and checked end to end, NOT a
+    theorem (see notes/C06.md) — partial.
 
   All per-hop theorems quantify over EVERY node (any number of adapters, any local adapter,
   with or without application), every cache, every arrival adapter, link source/destination
